@@ -86,7 +86,7 @@ def coq_case(c, tzname: str, fuel: int) -> str:
     qs = '; '.join(f'({z(dt)}, {coq_result(r)})' for dt, r in c['results'])
     ds = '; '.join(f'({z(a)}, {z(b)}, {z(x)})' for a, b, x in c['draws'])
     return ('{| pc_tz := %s; pc_expr := %s;\n   pc_draws := [%s]; pc_fuel := %d%%positive;\n   pc_queries := [%s] |}'
-            % (tzname, coq_expr(c['expr'], Ids()), ds, fuel, qs))
+            % (tzname, coq_expr(c['expr'], Ids()), ds, c.get('fuel', fuel), qs))
 
 
 def cases_file(cases: list[dict], tztab: dict, fuel: int) -> str:
